@@ -1546,3 +1546,272 @@ Proof.
   - split; [exact Hh7|]. split; [exact I2|]. split; [intros _; exact Hall|discriminate].
   - exact I3.
 Qed.
+
+(* ---------------------------------------------------------------- normalisation of an owned object (in place) *)
+Definition Go (m : muri) : Prop := mwf_host m /\ all_owned m = true.
+
+Definition ostage_spec (st : stage) (F : uri -> uri) : Prop :=
+  forall m done s, nofault s -> m_owner m = true -> Go m ->
+  exists m' s', st m done s = (Some (m', done), s')
+    /\ Go m' /\ erase m' = F (erase m) /\ m_owner m' = true
+    /\ sublist (text_blocks m') (text_blocks m) /\ st_le s s'.
+
+Definition o_text (cond : bool) (f : text -> text) (get : muri -> mtext) (set : mtext -> muri -> muri) : stage :=
+  fun m done s =>
+    if cond && is_some (t_val (get m)) then
+      match norm_text cs true f (get m) s with
+      | (Some t, s') => (Some (set t m, done), s')
+      | (None, s') => (None, s')
+      end
+    else (Some (m, done), s).
+
+Lemma all_owned_set c m m' :
+  all_owned m = true -> (forall c', c' <> c -> comp_owned c' m' = comp_owned c' m) -> comp_owned c m' = true ->
+  all_owned m' = true.
+Proof.
+  intros Ha Hfr Hc. apply all_owned_comps. intros c'. destruct (comp_eq_dec c' c) as [->|Hne]; [exact Hc|].
+  rewrite (Hfr _ Hne). apply all_owned_comp. exact Ha.
+Qed.
+
+Lemma norm_text_owned f t x : f [] = [] -> t_val t = Some x -> text_owned t = true ->
+  let t' := {| t_val := Some (f x); t_blk := t_blk t |} in
+  text_owned t' = true /\ sublist (text_blk t') (text_blk t).
+Proof.
+  intros Hf Ev Ho. unfold text_owned, text_blk in *. rewrite Ev in *. cbn [t_val t_blk].
+  destruct x as [|c x].
+  - rewrite Hf. split; [reflexivity|constructor].
+  - destruct (f (c :: x)); split; try reflexivity; try exact Ho; [apply sublist_nil|apply sublist_refl].
+Qed.
+
+Section OTextComp.
+Variables (c : comp) (get : muri -> mtext) (set : mtext -> muri -> muri) (i : nat)
+          (pget : uri -> option text) (pset : option text -> uri -> uri).
+Hypothesis Hparts : forall t m, block_parts (set t m) = upd i (text_blk t) (block_parts m).
+Hypothesis Hnth : forall m, nth i (block_parts m) [] = text_blk (get m).
+Hypothesis Hown_set : forall t m, comp_owned c (set t m) = text_owned t.
+Hypothesis Hown_get : forall m, comp_owned c m = text_owned (get m).
+Hypothesis Hframe : forall c' t m, c' <> c -> comp_owned c' (set t m) = comp_owned c' m.
+Hypothesis Herase : forall t m, erase (set t m) = pset (t_val t) (erase m).
+Hypothesis Hpget : forall m, pget (erase m) = t_val (get m).
+Hypothesis Hpsame : forall u, pset (pget u) u = u.
+Hypothesis Hhost : forall t m, mwf_host m -> mwf_host (set t m).
+Hypothesis Howner : forall t m, m_owner (set t m) = m_owner m.
+
+Lemma o_text_spec cond f : f [] = [] -> ostage_spec (o_text cond f get set) (F_text cond f pget pset).
+Proof.
+  intros Hf m done s Hnf Ho (Hh & Ha). unfold o_text, F_text.
+  assert (exists m' s', (Some (m, done), s) = (Some (m', done), s') /\ Go m' /\ erase m' = erase m
+            /\ m_owner m' = true /\ sublist (text_blocks m') (text_blocks m) /\ st_le s s') as Hsame.
+  { exists m, s. split; [reflexivity|]. split; [split; assumption|]. split; [reflexivity|]. split; [exact Ho|].
+    split; [apply sublist_refl|apply st_le_refl]. }
+  destruct cond; cbn [andb]; [|exact Hsame].
+  rewrite Hpget. destruct (t_val (get m)) as [x|] eqn:Ev; cbn [is_some omap].
+  2:{ rewrite <- Ev, <- Hpget, Hpsame. exact Hsame. }
+  unfold norm_text. rewrite Ev.
+  assert (text_owned (get m) = true) as Hto by (rewrite <- Hown_get; apply all_owned_comp; exact Ha).
+  destruct (norm_text_owned f (get m) x Hf Ev Hto) as [O1 O2].
+  eexists; exists s. split; [reflexivity|]. split; [|split; [|split; [|split]]].
+  - split; [apply Hhost; exact Hh|]. apply (all_owned_set c m); [exact Ha|intros c' Hne; apply Hframe; exact Hne|].
+    rewrite Hown_set. exact O1.
+  - rewrite Herase. reflexivity.
+  - rewrite Howner. exact Ho.
+  - unfold text_blocks. rewrite Hparts. apply concat_upd_sub. rewrite Hnth. exact O2.
+  - apply st_le_refl.
+Qed.
+End OTextComp.
+
+Lemma o_scheme_spec cond f : f [] = [] -> ostage_spec (o_text cond f m_scheme set_m_scheme) (F_text cond f scheme set_scheme).
+Proof. apply (o_text_spec CScheme m_scheme set_m_scheme 0%nat scheme set_scheme); tcomp_solve. Qed.
+Lemma o_user_spec cond f : f [] = [] -> ostage_spec (o_text cond f m_userInfo set_m_userInfo) (F_text cond f userInfo set_userInfo).
+Proof. apply (o_text_spec CUser m_userInfo set_m_userInfo 1%nat userInfo set_userInfo); tcomp_solve. Qed.
+Lemma o_query_spec cond f : f [] = [] -> ostage_spec (o_text cond f m_query set_m_query) (F_text cond f query set_query).
+Proof. apply (o_text_spec CQuery m_query set_m_query 6%nat query set_query); tcomp_solve. Qed.
+Lemma o_frag_spec cond f : f [] = [] -> ostage_spec (o_text cond f m_fragment set_m_fragment) (F_text cond f fragment set_fragment).
+Proof. apply (o_text_spec CFrag m_fragment set_m_fragment 7%nat fragment set_fragment); tcomp_solve. Qed.
+
+Definition o_host (mask : N) : stage := fun m done s =>
+  if bit mask M_HOST then
+    match t_val (m_ipFuture m) with
+    | Some _ =>
+      match norm_text cs true lowercase (m_ipFuture m) s with
+      | (Some t, s') => (Some (set_m_hostText {| t_val := t_val t; t_blk := None |} (set_m_ipFuture t m), done), s')
+      | (None, s') => (None, s')
+      end
+    | None =>
+      match t_val (m_hostText m), m_ip4 m, m_ip6 m with
+      | Some _, None, None =>
+        match norm_text cs true (fun x : text => lowercase_except_pct (fix_pct x)) (m_hostText m) s with
+        | (Some t, s') => (Some (set_m_hostText t m, done), s')
+        | (None, s') => (None, s')
+        end
+      | _, _, _ => (Some (m, done), s)
+      end
+    end
+  else (Some (m, done), s).
+
+Definition fix_seg (sg : mseg) : mseg :=
+  {| sg_text := fix_pct (sg_text sg); sg_blk := sg_blk sg; sg_node := sg_node sg |}.
+
+Definition o_path_full (mask : N) (m : muri) (done : N) (s : mstate) : option (muri * N) * muri * N * mstate :=
+  if bit mask M_PATH then
+    let relative := negb (is_some (t_val (m_scheme m))) && negb (m_abs m) && negb (m_host_set m) in
+    let m1 := set_m_segs (map fix_seg (m_segs m)) m in
+    let '(ok, m2, s2) := remove_dot_segments_m relative (true || negb (N.land done B_PATH =? 0)%N) m1 s in
+    if ok then let '(m3, s3) := fix_empty_trail_m m2 s2 in (Some (m3, done), m3, done, s3)
+    else (None, m2, done, s2)
+  else (Some (m, done), m, done, s).
+Definition o_path (mask : N) : stage := fun m done s =>
+  let '(r, _, _, s') := o_path_full mask m done s in (r, s').
+
+Lemma o_host_spec mask : ostage_spec (o_host mask) (F_host mask).
+Proof.
+  intros m done s Hnf Ho (Hh & Ha). unfold o_host, F_host.
+  assert (exists m' s', (Some (m, done), s) = (Some (m', done), s') /\ Go m' /\ erase m' = erase m
+            /\ m_owner m' = true /\ sublist (text_blocks m') (text_blocks m) /\ st_le s s') as Hsame.
+  { exists m, s. split; [reflexivity|]. split; [split; assumption|]. split; [reflexivity|]. split; [exact Ho|].
+    split; [apply sublist_refl|apply st_le_refl]. }
+  destruct (bit mask M_HOST); [|exact Hsame].
+  change (ipFuture (erase m)) with (t_val (m_ipFuture m)).
+  change (hostText (erase m)) with (t_val (m_hostText m)).
+  pose proof (all_owned_comp m CHost Ha) as Hho. cbn [comp_owned] in Hho. unfold host_owned in Hho.
+  destruct (t_val (m_ipFuture m)) as [x|] eqn:Ef.
+  - unfold norm_text. rewrite Ef.
+    destruct (norm_text_owned lowercase (m_ipFuture m) x lowercase_nil Ef Hho) as [O1 O2].
+    eexists; exists s. split; [reflexivity|]. split; [|split; [|split; [|split]]].
+    + split; [intros y Hy; cbn in *; exact Hy|].
+      apply (all_owned_set CHost m); [exact Ha|intros c' Hne; destruct c'; try reflexivity; congruence|].
+      cbn [comp_owned]. unfold host_owned. cbn [m_ipFuture m_hostText set_m_hostText set_m_ipFuture t_val]. exact O1.
+    + reflexivity.
+    + exact Ho.
+    + set (t1 := {| t_val := Some (lowercase x); t_blk := t_blk (m_ipFuture m) |}) in *.
+      apply (sublist_trans (text_blocks (set_m_ipFuture t1 m)) (text_blocks m)).
+      * apply (concat_upd_sub _ (block_parts m) 3). exact O2.
+      * apply (concat_upd_sub (text_blk {| t_val := t_val t1; t_blk := None |}) (block_parts (set_m_ipFuture t1 m)) 2).
+        rewrite text_blk_noblk. apply sublist_nil.
+    + apply st_le_refl.
+  - change (ip4 (erase m)) with (match m_ip4 m with Some (b, _) => Some b | None => None end).
+    change (ip6 (erase m)) with (match m_ip6 m with Some (b, _) => Some b | None => None end).
+    destruct (t_val (m_hostText m)) as [x|] eqn:Eh; [|destruct (m_ip4 m) as [[? ?]|], (m_ip6 m) as [[? ?]|]; exact Hsame].
+    destruct (m_ip4 m) as [[? ?]|] eqn:E4; [exact Hsame|].
+    destruct (m_ip6 m) as [[? ?]|] eqn:E6; [exact Hsame|].
+    unfold norm_text. rewrite Eh.
+    destruct (norm_text_owned (fun x : text => lowercase_except_pct (fix_pct x)) (m_hostText m) x lep_fix_nil Eh Hho) as [O1 O2].
+    eexists; exists s. split; [reflexivity|]. split; [|split; [|split; [|split]]].
+    + split; [intros y Hy; cbn in Hy; rewrite Ef in Hy; discriminate Hy|].
+      apply (all_owned_set CHost m); [exact Ha|intros c' Hne; destruct c'; try reflexivity; congruence|].
+      cbn [comp_owned]. unfold host_owned. cbn [m_ipFuture m_hostText set_m_hostText]. rewrite Ef. exact O1.
+    + reflexivity.
+    + exact Ho.
+    + apply (concat_upd_sub _ (block_parts m) 2). exact O2.
+    + apply st_le_refl.
+Qed.
+
+Lemma fix_seg_blocks segs :
+  sublist (flat_map seg_blk (map fix_seg segs)) (flat_map seg_blk segs)
+  /\ (forallb seg_owned segs = true -> forallb seg_owned (map fix_seg segs) = true)
+  /\ map sg_text (map fix_seg segs) = map fix_pct (map sg_text segs).
+Proof.
+  induction segs as [|sg r (IH1 & IH2 & IH3)]; [repeat split; constructor|].
+  cbn [map flat_map forallb]. split; [|split].
+  - apply sublist_app; [|exact IH1]. unfold seg_blk, fix_seg. cbn [sg_text sg_blk].
+    destruct (sg_text sg) as [|c x]; [constructor|]. destruct (fix_pct (c :: x)); [apply sublist_nil|apply sublist_refl].
+  - intros H. apply andb_prop in H. destruct H as [H1 H2]. rewrite (IH2 H2), andb_true_r.
+    unfold seg_owned, fix_seg in *. cbn [sg_text sg_blk].
+    destruct (sg_text sg) as [|c x]; [reflexivity|]. destruct (fix_pct (c :: x)); [reflexivity|exact H1].
+  - rewrite IH3. reflexivity.
+Qed.
+
+Lemma o_path_spec mask : ostage_spec (o_path mask) (F_path mask).
+Proof.
+  intros m done s Hnf Ho (Hh & Ha). unfold o_path, o_path_full, F_path.
+  destruct (bit mask M_PATH).
+  2:{ exists m, s. split; [reflexivity|]. split; [split; assumption|]. split; [reflexivity|]. split; [exact Ho|].
+      split; [apply sublist_refl|apply st_le_refl]. }
+  cbv zeta.
+  set (rel := negb (is_some (t_val (m_scheme m))) && negb (m_abs m) && negb (m_host_set m)).
+  set (ow := true || negb (N.land done B_PATH =? 0)%N).
+  destruct (fix_seg_blocks (m_segs m)) as (B1 & B2 & B3).
+  destruct (remove_dot_segments_m_nf rel ow (set_m_segs (map fix_seg (m_segs m)) m) s Hnf) as (segs2 & s2 & E2 & R2 & S2 & L2).
+  rewrite E2.
+  destruct (fix_empty_trail_m_nf (set_m_segs segs2 (set_m_segs (map fix_seg (m_segs m)) m)) s2) as (segs3 & s3 & E3 & R3 & S3 & L3).
+  rewrite E3. cbn [m_segs set_m_segs] in S2, S3.
+  eexists; exists s3. split; [reflexivity|]. split; [|split; [|split; [|split]]].
+  - split; [exact Hh|].
+    apply (all_owned_set CPath m); [exact Ha|intros c' Hne; destruct c'; try reflexivity; congruence|].
+    cbn [comp_owned m_segs set_m_segs]. eapply segsub_owned; [exact S3|]. eapply segsub_owned; [exact S2|].
+    apply B2. apply (all_owned_comp m CPath Ha).
+  - rewrite R3, R2.
+    change (erase (set_m_segs (map fix_seg (m_segs m)) m)) with (set_pathSegs (map sg_text (map fix_seg (m_segs m))) (erase m)).
+    rewrite B3. reflexivity.
+  - exact Ho.
+  - apply (concat_upd_sub (flat_map seg_blk segs3) (block_parts m) 5). cbn [nth block_parts].
+    eapply sublist_trans; [exact B1|]. eapply sublist_trans; [apply segsub_blocks; exact S2|apply segsub_blocks; exact S3].
+  - eapply st_le_trans; [exact L2|exact L3].
+Qed.
+
+Definition normalize_o (mask : N) (m : muri) (s : mstate) : N * muri * mstate :=
+  if (mask =? 0)%N then (URI_SUCCESS, m, s)
+  else
+    let fail (m : muri) (done : N) (s : mstate) :=
+      let '(m', s') := prevent_leakage m done s in (URI_ERROR_MALLOC, m', s') in
+    match o_text (bit mask M_SCHEME) lowercase m_scheme set_m_scheme m 0%N s with
+    | (None, s) => fail m 0%N s
+    | (Some (m, done), s) =>
+    match o_host mask m done s with
+    | (None, s) => fail m done s
+    | (Some (m, done), s) =>
+    match o_text (bit mask M_USER_INFO) fix_pct m_userInfo set_m_userInfo m done s with
+    | (None, s) => fail m done s
+    | (Some (m, done), s) =>
+    match o_path_full mask m done s with
+    | (None, mf, donef, s) => fail mf donef s
+    | (Some (m, done), _, _, s) =>
+    match o_text (bit mask M_QUERY) fix_pct m_query set_m_query m done s with
+    | (None, s) => fail m done s
+    | (Some (m, done), s) =>
+    match o_text (bit mask M_FRAGMENT) fix_pct m_fragment set_m_fragment m done s with
+    | (None, s) => fail m done s
+    | (Some (m, done), s) => (URI_SUCCESS, m, s)
+    end end end end end end.
+
+Lemma normalize_o_eq mask m s : m_owner m = true -> normalize_m cs mask m s = normalize_o mask m s.
+Proof. intros Ho. unfold normalize_m. rewrite Ho. reflexivity. Qed.
+
+Lemma normalize_m_owned mask m s :
+  nofault s -> m_owner m = true -> mwf m -> mask <> 0%N ->
+  exists m' s', normalize_m cs mask m s = (URI_SUCCESS, m', s')
+    /\ erase m' = normalize mask (erase m)
+    /\ m_owner m' = true /\ all_owned m' = true /\ mwf m'
+    /\ sublist (text_blocks m') (text_blocks m)
+    /\ nofault s'.
+Proof.
+  intros Hnf Ho (Hh & Hnd & Hao & _) Hmask. rewrite (normalize_o_eq _ _ _ Ho), normalize_unfold. unfold normalize_o.
+  apply N.eqb_neq in Hmask. rewrite Hmask.
+  assert (Go m) as G0 by (split; [exact Hh|apply Hao; exact Ho]).
+  destruct (o_scheme_spec (bit mask M_SCHEME) lowercase lowercase_nil m 0%N s Hnf Ho G0) as (m1 & s1 & E1 & G1 & R1 & W1 & B1 & L1).
+  pose proof (st_le_nofault _ _ L1 Hnf) as N1.
+  destruct (o_host_spec mask m1 0%N s1 N1 W1 G1) as (m2 & s2 & E2 & G2 & R2 & W2 & B2 & L2).
+  pose proof (st_le_nofault _ _ L2 N1) as N2.
+  destruct (o_user_spec (bit mask M_USER_INFO) fix_pct fix_pct_nil m2 0%N s2 N2 W2 G2) as (m3 & s3 & E3 & G3 & R3 & W3 & B3 & L3).
+  pose proof (st_le_nofault _ _ L3 N2) as N3.
+  destruct (o_path_spec mask m3 0%N s3 N3 W3 G3) as (m4 & s4 & E4 & G4 & R4 & W4 & B4 & L4).
+  pose proof (st_le_nofault _ _ L4 N3) as N4.
+  destruct (o_query_spec (bit mask M_QUERY) fix_pct fix_pct_nil m4 0%N s4 N4 W4 G4) as (m5 & s5 & E5 & G5 & R5 & W5 & B5 & L5).
+  pose proof (st_le_nofault _ _ L5 N4) as N5.
+  destruct (o_frag_spec (bit mask M_FRAGMENT) fix_pct fix_pct_nil m5 0%N s5 N5 W5 G5) as (m6 & s6 & E6 & G6 & R6 & W6 & B6 & L6).
+  pose proof (st_le_nofault _ _ L6 N5) as N6.
+  rewrite E1, E2, E3. unfold o_path in E4.
+  destruct (o_path_full mask m3 0%N s3) as [[[r mf] df] sf]. injection E4 as -> ->.
+  rewrite E5, E6. exists m6, s6. split; [reflexivity|].
+  assert (sublist (text_blocks m6) (text_blocks m)) as Hsub.
+  { eapply sublist_trans; [exact B1|]. eapply sublist_trans; [exact B2|]. eapply sublist_trans; [exact B3|].
+    eapply sublist_trans; [exact B4|]. eapply sublist_trans; [exact B5|exact B6]. }
+  destruct G6 as [Hh6 Ha6].
+  split.
+  { rewrite <- (erase_owned m6 W6). rewrite R6, R5, R4, R3, R2, R1. reflexivity. }
+  split; [exact W6|]. split; [exact Ha6|]. split; [|split; [exact Hsub|exact N6]].
+  split; [exact Hh6|]. split; [eapply sublist_NoDup; [exact Hsub|exact Hnd]|]. split; [intros _; exact Ha6|].
+  intros H. rewrite W6 in H. discriminate H.
+Qed.
+
+End Ops.
